@@ -1395,6 +1395,201 @@ fn grid(st: &mut Stats, thorough: bool, synthetic: Option<&std::path::Path>) -> 
     kernel_obs
 }
 
+// ------------------------------------------------------------------------------------------
+// (d) the same comparison through REUSED skrifa hinting instances
+// ------------------------------------------------------------------------------------------
+/// `HintingInstance::reconfigure` must leave no trace of the previous configuration: for a sample of final cells
+/// (font, ppem, target) the skrifa outline is drawn by an instance that was first configured for other cells (sizes on
+/// the far side of the font's MPPEM thresholds and at both extremes, another target, another font, chains of two) and
+/// then reconfigured; FreeType's answer for the final cell (fresh face) is the reference.
+fn reuse_pass(st: &mut Stats, files: &[std::path::PathBuf], rng: &mut Rng, thorough: bool) {
+    use skrifa::outline::{DrawSettings, HintingInstance};
+    use skrifa::prelude::{LocationRef, Size};
+    use skrifa::{FontRef, MetadataProvider};
+    struct Face {
+        path: std::path::PathBuf,
+        name: String,
+        index: usize,
+        data: std::sync::Arc<Vec<u8>>,
+        thresholds: Vec<u32>,
+    }
+    // static faces only
+    let mut faces: Vec<Face> = vec![];
+    for f in files {
+        let Ok(data) = std::fs::read(f) else { continue };
+        let data = std::sync::Arc::new(data);
+        let name = f.file_name().unwrap().to_string_lossy().to_string();
+        let count = match skrifa::raw::FileRef::new(&data) {
+            Ok(skrifa::raw::FileRef::Font(_)) => 1,
+            Ok(skrifa::raw::FileRef::Collection(c)) => c.len() as usize,
+            _ => 0,
+        };
+        for index in 0..count {
+            let Ok(font) = FontRef::from_index(&data, index as u32) else { continue };
+            if font.axes().len() != 0 || font.outline_glyphs().format().is_none() {
+                continue;
+            }
+            let fname = if count > 1 { format!("{name}#{index}") } else { name.clone() };
+            faces.push(Face { path: f.clone(), name: fname, index, data: data.clone(), thresholds: mppem_thresholds(f) });
+        }
+    }
+    // work items: (face, final ppem, target index 1..=5, history = list of (face, ppem, target index))
+    type Cell = (usize, u32, usize);
+    let mut items: Vec<(Cell, Vec<Vec<Cell>>)> = vec![];
+    for (fi, face) in faces.iter().enumerate() {
+        let mut hist_sizes: Vec<u32> = vec![2, 3, 7, 9, 2047, 2049, 2100, 4000];
+        hist_sizes.extend(face.thresholds.iter().cloned());
+        hist_sizes.sort();
+        hist_sizes.dedup();
+        let mut finals: Vec<u32> = vec![8, 12, 16, 24, 50, 128, 200];
+        for _ in 0..(if thorough { 8 } else { 2 }) {
+            if !face.thresholds.is_empty() {
+                finals.push(*rng.pick(&face.thresholds));
+            }
+        }
+        if thorough {
+            finals.extend([10, 11, 13, 20, 33, 64, 100, 300, 1000]);
+        }
+        finals.sort();
+        finals.dedup();
+        for p in finals {
+            for t in 1..=5usize {
+                let other_t = 1 + (t + rng.below(4) as usize) % 5;
+                let other_face = (fi + 1 + rng.below(faces.len().max(2) as u64 - 1) as usize) % faces.len();
+                let histories = vec![
+                    vec![(fi, hist_sizes[0], t)],
+                    vec![(fi, *hist_sizes.last().unwrap(), t)],
+                    vec![(fi, *rng.pick(&hist_sizes), other_t)],
+                    vec![(other_face, *rng.pick(&[7u32, 12, 40, 2100]), other_t)],
+                    vec![(other_face, 16, t), (fi, *rng.pick(&hist_sizes), other_t)],
+                ];
+                items.push(((fi, p, t), histories));
+            }
+        }
+    }
+    let next = AtomicUsize::new(0);
+    let results: Mutex<Vec<(usize, GridOut)>> = Mutex::new(vec![]);
+    let nthreads = std::thread::available_parallelism().map(|n| n.get()).unwrap_or(8).min(16);
+    std::thread::scope(|s| {
+        for _ in 0..nthreads {
+            s.spawn(|| loop {
+                let i = next.fetch_add(1, Ordering::Relaxed);
+                if i >= items.len() {
+                    break;
+                }
+                let ((fi, ppem, t), histories) = &items[i];
+                let face = &faces[*fi];
+                let (hinting, mode) = TARGETS[*t];
+                let mut out = GridOut::default();
+                // FreeType reference for the final cell (fresh face)
+                let Some(mut font) = Font::new(&face.path) else { continue };
+                let options = InstanceOptions::new(face.index, *ppem, &[], hinting);
+                let Some((mut ft, mut fresh)) = font.instantiate(&options) else {
+                    *out.counters.entry("reuse.final_cell_not_instantiable".into()).or_default() += 1;
+                    results.lock().unwrap().push((i, out));
+                    continue;
+                };
+                if !ft.is_scalable() {
+                    continue;
+                }
+                let n = fresh.glyph_count();
+                let mut ft_paths: Vec<Option<Vec<PathElement>>> = vec![];
+                for gid in 0..n {
+                    let mut v = vec![];
+                    let ok = ft.outline(GlyphId::from(gid), &mut RegularizingPen::new(&mut v, true)).is_some();
+                    ft_paths.push(ok.then_some(v));
+                }
+                let fref = FontRef::from_index(&face.data, face.index as u32).unwrap();
+                let outlines = fref.outline_glyphs();
+                for hist in histories {
+                    // build the instance on the first history cell, reconfigure through the rest, then to the final cell
+                    let mut inst: Option<HintingInstance> = None;
+                    let mut ok = true;
+                    for (hf, hp, ht) in hist.iter().chain(std::iter::once(&(*fi, *ppem, *t))) {
+                        let hface = &faces[*hf];
+                        let href = FontRef::from_index(&hface.data, hface.index as u32).unwrap();
+                        let houtlines = href.outline_glyphs();
+                        let opts = TARGETS[*ht].0.unwrap().skrifa_options();
+                        let r = match inst.as_mut() {
+                            None => HintingInstance::new(&houtlines, Size::new(*hp as f32), LocationRef::default(), opts).map(|h| inst = Some(h)),
+                            Some(h) => h.reconfigure(&houtlines, Size::new(*hp as f32), LocationRef::default(), opts),
+                        };
+                        if r.is_err() {
+                            // a history cell the hinter rejects: start over from the next cell
+                            inst = None;
+                            *out.counters.entry("reuse.history_cell_rejected".into()).or_default() += 1;
+                            if (*hf, *hp, *ht) == (*fi, *ppem, *t) {
+                                ok = false;
+                            }
+                        }
+                    }
+                    let Some(inst) = inst.filter(|_| ok) else { continue };
+                    *out.counters.entry("reuse.chains".into()).or_default() += 1;
+                    let hdesc: Vec<String> = hist.iter().map(|(hf, hp, ht)| format!("{}@{}:{}", faces[*hf].name, hp, TARGETS[*ht].1)).collect();
+                    for gid in 0..n {
+                        let Some(ft_path) = &ft_paths[gid as usize] else { continue };
+                        let Some(glyph) = outlines.get(GlyphId::from(gid)) else { continue };
+                        let mut v: Vec<PathElement> = vec![];
+                        let r = std::panic::catch_unwind(AssertUnwindSafe(|| {
+                            glyph.draw(DrawSettings::hinted(&inst, false), &mut RegularizingPen::new(&mut v, true)).is_ok()
+                        }));
+                        out.evaluations += 1;
+                        *out.counters.entry("reuse.glyphs_compared".into()).or_default() += 1;
+                        let gname = if face.name == SYNTH_FILE {
+                            SYNTH.get().and_then(|s| s.get(gid as usize)).map(|g| g.name.clone()).unwrap_or(gid.to_string())
+                        } else {
+                            gid.to_string()
+                        };
+                        if !matches!(r, Ok(true)) || &v != ft_path {
+                            // only report what a fresh instance gets right (fresh-instance differences belong to the grid)
+                            let mut fv: Vec<PathElement> = vec![];
+                            let _ = fresh.outline(GlyphId::from(gid), &mut RegularizingPen::new(&mut fv, true));
+                            if &fv == ft_path {
+                                out.failures.push(json!({"key": format!("{}:{}:{}:{}", face.name, gname, ppem, mode),
+                                    "what": "outline from a reconfigured (reused) hinting instance differs; a fresh instance matches FreeType",
+                                    "history": hdesc, "freetype": path_str(ft_path), "skrifa": path_str(&v)}));
+                            } else {
+                                *out.counters.entry("reuse.differs_like_fresh_instance".into()).or_default() += 1;
+                            }
+                        }
+                    }
+                }
+                results.lock().unwrap().push((i, out));
+            });
+        }
+    });
+    let mut results = results.into_inner().unwrap();
+    results.sort_by_key(|r| r.0);
+    let mut groups: BTreeMap<String, (serde_json::Value, Vec<String>)> = BTreeMap::new();
+    let mut total = 0usize;
+    for (_, out) in results {
+        st.evaluations += out.evaluations;
+        for (k, v) in out.counters {
+            st.add(&k, v);
+        }
+        for f in out.failures {
+            total += 1;
+            let key = f["key"].as_str().unwrap_or("").to_string();
+            let parts: Vec<&str> = key.rsplitn(4, ':').collect(); // mode, ppem, glyph, font
+            let gkey = format!("{}:{}:*:{}:reused", parts[3], parts[2], parts[0]);
+            let e = groups.entry(gkey).or_insert_with(|| (f.clone(), vec![]));
+            if e.1.len() < 60 {
+                e.1.push(format!("{}<-{}", parts[1], f["history"]));
+            }
+        }
+    }
+    st.v.insert("reuse_cells".into(), items.len().into());
+    st.v.insert("reuse_mismatches".into(), total.into());
+    st.v.insert("reuse_mismatch_groups".into(), json!(groups.keys().collect::<Vec<_>>()));
+    for (gkey, (first, inst)) in groups {
+        let mut f = first;
+        f["first_instance"] = f["key"].clone();
+        f["key"] = json!(gkey);
+        f["failing_ppem_and_history"] = json!(inst);
+        st.oracle_failure(f);
+    }
+}
+
 /// development aid (`c03 probe <font> <gid> <ppem>`): pedantic-mode outcome of both interpreters
 fn probe(args: &[String]) {
     use freetype::face::LoadFlag;
@@ -1449,6 +1644,11 @@ fn main() {
     st.v.insert("synthetic_glyphs".into(), glyphs.len().into());
     let kernel_obs = grid(&mut st, thorough, Some(&synth_path));
     let t_grid = t0.elapsed().as_secs_f64();
+    let mut all_files = font_files();
+    all_files.push(synth_path.clone());
+    let t1 = std::time::Instant::now();
+    reuse_pass(&mut st, &all_files, &mut rng, thorough);
+    st.v.insert("reuse_seconds".into(), json!(t1.elapsed().as_secs_f64()));
     // (a)
     let cw = CaseWriter::new(
         &dir,
